@@ -55,7 +55,7 @@ impl LogicalExpr {
 //%% @rewrite 1 /for l in itm\.lits\(\)\.iter\(\) \{/ => let l__s = itm.lits(); let mut l__i: usize = 0; while l__i < l__s.len() { let l = &l__s[l__i]; l__i += 1;
 //%% @rewrite 1 /for lit in lit_vec \{/ => let mut v__i: usize = 0; while v__i < lit_vec.len() { let lit = verif_clone_le(&lit_vec[v__i]); v__i += 1;
 //%% @rewrite 1 /for clause in clause_vec \{/ => let mut w__i: usize = 0; while w__i < clause_vec.len() { let clause = verif_clone_le(&clause_vec[w__i]); w__i += 1;
-//%% @rewrite 1 /(e = LogicalExpr::And\(Box::new\(e\), Box::new\(clause\)\))\n/ => \1;\n
+//%% @rewrite 1 /(e = LogicalExpr::\w+\(Box::new\(\w+\), Box::new\(\w+\)\))\n/ => \1;\n
 //%% @spec
         requires xdimacs_ok(parsed(input)),
         ensures
@@ -70,7 +70,7 @@ impl LogicalExpr {
                 invariant
                     l__i <= l__s.len(), l__s@ == itm.ls@, lit_vec@.len() == l__i, xconv(l__s@, lit_vec@, l__i as int),
                 decreases l__s.len() - l__i,
-//%% @before /^\s*if lit_vec\.len\(\) == 1 \{$/
+//%% @before /^\s*if lit_vec\.len\(\) \S+ \d+ \{$/
             let ghost c = itm.ls@;
             let ghost n = c.len() as int;
             let ghost lv0 = lit_vec@;
@@ -100,7 +100,7 @@ impl LogicalExpr {
                 proof {
                     assert forall|env: IEnv| #[trigger] tri(env) implies le_sem(clause_vec@[c__i as int - 1], env) == xclause(c, n, env, 0) by { lemma_xclause_step(c, n - 1, env, 0); }
                 }
-//%% @before /^\s*if clause_vec\.len\(\) == 1 \{$/
+//%% @before /^\s*if clause_vec\.len\(\) \S+ \d+ \{$/
         let ghost cs = cvec@;
         let ghost m = cs.len() as int;
         let ghost cv0 = clause_vec@;
